@@ -23,7 +23,7 @@ LEAN_MODULES = ["NiftyVerif.Core.Proto", "NiftyVerif.Model.Priors", "NiftyVerif.
 DRIVER = "Driver/C30.lean"
 OBLIGATIONS = ["NiftyVerif.C30." + t for t in (
     "strictMono_normal", "quantile_normal", "cdf_normal", "inverse_roundtrip_normal",
-    "lognormal_moments_spec", "lognormal_moments_spec_cl", "lognormal_moments_rejects", "strictMono_lognormal",
+    "lognormal_moments_value", "lognormal_moments_spec", "lognormal_moments_spec_cl", "lognormal_moments_rejects", "strictMono_lognormal",
     "strictMono_lognormal_prior", "quantile_lognormal", "cdf_lognormal", "inverse_roundtrip_lognormal",
     "strictMono_uniform", "strictMono_uniform_cl", "quantile_uniform", "range_uniform", "inverse_roundtrip_uniform",
     "uniform_jacobian",
